@@ -141,6 +141,9 @@ SELF_FORMS = [
     ("&'x self on OpL<'y>", "OpL", 2),
     ("self: SB<'x>", "SB", 1),
     ("static on OpL<'y>", "OpL", 1),
+    # both lifetimes come from the impl header: a bound between them can only be written as a where clause, and a method
+    # that uses nothing else has no generic parameter list of its own
+    ("self: S2<'x,'y>", "S2", 2),
 ]
 
 
@@ -165,10 +168,12 @@ class Sig:
             return [self.self_l[1]]
         if self.selff in ("self: SB<'x>", "static on OpL<'y>"):
             return [self.self_l[0]]
+        if self.selff == "self: S2<'x,'y>":
+            return [self.self_l[0], self.self_l[1]]
         return []
 
     def owner(self):
-        return {"none": "Op", "&'x self on Op": "Op", "&'x self on OpL<'y>": "OpL", "self: SB<'x>": "SB", "static on OpL<'y>": "OpL"}[self.selff]
+        return {"none": "Op", "&'x self on Op": "Op", "&'x self on OpL<'y>": "OpL", "self: SB<'x>": "SB", "static on OpL<'y>": "OpL", "self: S2<'x,'y>": "S2"}[self.selff]
 
     def render_method(self, name):
         impl = self.impl_lts()
@@ -185,7 +190,7 @@ class Sig:
         args = []
         if self.selff in ("&'x self on Op", "&'x self on OpL<'y>"):
             args.append("&'%s self" % self.self_l[0])
-        elif self.selff == "self: SB<'x>":
+        elif self.selff in ("self: SB<'x>", "self: S2<'x,'y>"):
             args.append("self")
         for i, (f, l) in enumerate(self.params):
             args.append("p%d: %s" % (i, f.text(l)))
@@ -199,6 +204,8 @@ class Sig:
         impl = self.impl_lts()
         if not impl:
             return "impl %s" % o
+        if len(impl) == 2:
+            return "impl<'%s, '%s> %s<'%s, '%s>" % (impl[0], impl[1], o, impl[0], impl[1])
         l = impl[0]
         return "impl<'%s> %s<'%s>" % (l, o, l)
 
@@ -221,6 +228,8 @@ class Sig:
             out.append(("this", "self", [("opaque", None, self.self_l[0]), ("opaque", None, self.self_l[1])], False))
         elif self.selff == "self: SB<'x>":
             out.append(("this", "self", [("struct", "a", self.self_l[0])], False))
+        elif self.selff == "self: S2<'x,'y>":
+            out.append(("this", "self", [("struct", "a", self.self_l[0]), ("struct", "b", self.self_l[1])], False))
         for i, (f, l) in enumerate(self.params):
             out.append(("p%d" % i, f.name, f.slots(l), f.optional))
         return out
@@ -321,7 +330,7 @@ def enumerate_sigs(lts, self_forms, param_forms, max_params, ret_forms, bound_se
             if sname not in self_forms:
                 continue
             for sl in assignments(sholes, lts):
-                if sname == "&'x self on OpL<'y>" and sl[0] == sl[1]:
+                if sname in ("&'x self on OpL<'y>", "self: S2<'x,'y>") and sl[0] == sl[1]:
                     continue  # &'a self on OpL<'a> needs impl and method lifetime to coincide: not expressible
                 for pt in ptuples:
                     for rf in ret_forms:
